@@ -136,14 +136,18 @@ func extractMethodsFromNamedType(named *types.Named) []TypeMethod {
 	// Get method set for *T (includes both T and *T receivers)
 	ptrType := types.NewPointer(named)
 	methodSet := types.NewMethodSet(ptrType)
+	// Method set of T itself: what a value of the type can be used for
+	valueMethodSet := types.NewMethodSet(named)
 
 	for i := 0; i < methodSet.Len(); i++ {
 		selection := methodSet.At(i)
 		method := selection.Obj().(*types.Func)
 		sig := method.Type().(*types.Signature)
 
-		// Determine if receiver is pointer
-		recvIsPointer := isPointerReceiver(sig.Recv().Type())
+		// Determine if the method needs a pointer to the type. A pointer receiver
+		// method promoted through an embedded *E belongs to the value's method set too
+		recvIsPointer := isPointerReceiver(sig.Recv().Type()) &&
+			valueMethodSet.Lookup(method.Pkg(), method.Name()) == nil
 
 		methods = append(methods, TypeMethod{
 			Name:              method.Name(),
